@@ -240,3 +240,48 @@ func vpH_C11_T_stop_vs_expiry() {
 	vpAssert("C11.threads-end", vpThreadsAlive() == 0)
 	vpAssert("C11.stopped", !s.e.IsLeader())
 }
+
+// vpH_C11_T_flapping_verify: the connection flaps while the verification started by the first reconnect is
+// still under way (the logger call it makes inside its critical section is a scheduling point): a second
+// disconnect, a change of ownership during that second outage, and a second reconnect notification are
+// placed by the explorer at any switch point of the first verification. After the LAST reconnect notification
+// the leader keeps leadership iff a read of the record made after it shows its own identity and token.
+func vpH_C11_T_flapping_verify() {
+	H := 10 * time.Second // no heartbeat inside the horizon: only the reconnect verification can notice
+	s := vpConnInstance(H, 0, map[string]bool{"reconnect_verification_success": true})
+	s.kv.opLeft = 40
+	s.st.noEvents = true
+	s.notify(0)
+	time.Sleep(300 * time.Millisecond)
+	s.notify(1)
+	change := vpChoose("during-second-outage", 3)
+	r2 := int64(-1)
+	go func() {
+		vpYieldLazy("env.flap", time.Second)
+		s.notify(0)
+		switch change {
+		case 1:
+			s.st.write("env:other", "update", vpRecMk("other", "tok-other", 0), false, s.st.lastSeq)
+		case 2:
+			s.st.write("env:a2", "update", vpRecMk("a", "tok-later", 0), false, s.st.lastSeq)
+		}
+		r2 = vpNow()
+		s.notify(1)
+	}()
+	time.Sleep(2 * time.Second)
+	vpQuiesce()
+	vpCover("C11.flapping-verify")
+	dl := vpDeadlocked()
+	vpAssert("C11.no-deadlock", dl == "")
+	if dl != "" || r2 < 0 {
+		return
+	}
+	if change == 0 {
+		vpAssert("C11.reconnect-iff-own", s.e.IsLeader() && s.cb.demotes == 0)
+	} else {
+		vpAssert("C11.reconnect-iff-own", !s.e.IsLeader() && s.cb.demotes == 1)
+	}
+	_ = s.e.Stop()
+	vpQuiesce()
+	vpAssert("C11.threads-end", vpThreadsAlive() == 0)
+}
